@@ -120,6 +120,10 @@ def run_case(ctx, case, model=True):
             pair_g = float(obj.get_power_output_from_bidirectional_input(ein)[0])
             if min(abs(pair_f - ein), abs(pair_g - sout)) > eps:
                 ctx.fail("predicate", tag("pti-powers-not-a-conversion-pair"), f"step {t}: electrical {ein} / shaft {sout}: f(shaft)={pair_f}, g(electrical)={pair_g}", where)
+            # a machine whose power is given keeps it (outside full-PTI steps and load sharing): both balances close around a power
+            # that was silently replaced just as well (D88)
+            if not full and not balancing and emode(p["name"], t) != 0 and abs(sout - shaft_given) > eps:
+                ctx.fail("predicate", tag("given-pti-power-not-kept"), f"step {t}: shaft power given {shaft_given}, after the combined balance {sout} (rated {rated})", where)
             if full:
                 eff = float(obj.get_efficiency_from_load_percentage(abs(L) / rated))
                 if abs(sout - L) > eps or abs(ein - L / eff) > eps:
